@@ -134,7 +134,12 @@ boost::optional<H5Group> BlockHDF5::findEntityGroup(const nix::Identity &ident) 
 
 std::string BlockHDF5::resolveEntityId(const nix::Identity &ident) const {
     if (!ident.id().empty()) {
-        return ident.id();
+        // Identity takes a name that looks like an id for an id: only if no entity of
+        // that name exists the string is an id that needs no further resolution
+        boost::optional<H5Group> p = groupForObjectType(ident.type());
+        if (!ident.name().empty() || !p || !p->hasObject(ident.id())) {
+            return ident.id();
+        }
     }
 
     boost::optional<H5Group> g = findEntityGroup(ident);
